@@ -532,6 +532,15 @@ int main(int argc, char** argv)
         }
     }
 
+    if (PhaseSpace::nx != ps_bins) {
+        // all maps and buffers below are set up for ps_bins cells per axis
+        std::stringstream msg;
+        msg << "Grid size of the initial distribution (" << PhaseSpace::nx
+            << ") does not match GridSize (" << ps_bins << "). Will now quit.";
+        Display::printText(msg.str());
+        return EXIT_SUCCESS;
+    }
+
     // an initial renormalization might be applied
     if (renormalize >= 0) {
         grid_t1->updateXProjection();
